@@ -4,6 +4,7 @@ Imports only the core-Lean model and property-predicate files (no Mathlib), so i
 -/
 import FFVerif.Model.Proto
 import FFVerif.Props.C01
+import FFVerif.Props.C02
 open FF FF.Proto
 
 def counterByName (n : String) : Option (List Int → List Cyc) :=
@@ -40,6 +41,12 @@ def handle (toks : List String) : Option String :=
     let cs ← parseCycs cs
     let t ← parseTable t
     some (showFail (C01.failing h cs t))
+  | ["c02", name, h, cs, t] => do
+    let k ← C02.Counter.ofString? name
+    let h ← parseList h
+    let cs ← parseCycs cs
+    let t ← parseTable t
+    some (showFail (C02.failing k h cs t))
   | ["c01mat", h, m] => do
     let h ← parseList h
     let m ← parseTriples m
